@@ -150,37 +150,75 @@ Proof.
   rewrite G; [lia|assumption|lia|lia].
 Qed.
 
-(* TotalBalance is issued - redeemed, exactly, whenever the totals fit 64 bits and redeemed <= issued *)
+(* the views hold non-negative entries because the rows do *)
+Lemma ins_ks_nonneg k a acc : 0 <= a -> Forall (fun x => 0 <= x) (map snd acc) -> Forall (fun x => 0 <= x) (map snd (ins_ks k a acc)).
+Proof.
+  intros Ha0. induction acc as [|[k' a'] t IHt]; intros Ha; cbn [ins_ks map snd].
+  - constructor; [assumption|constructor].
+  - cbn [map snd] in Ha. inversion Ha; subst.
+    destruct (k =? k'); cbn [map snd]; constructor; try lia; auto.
+Qed.
+
+Lemma sum_by_ks_nonneg l : forall acc, Forall (fun x => 0 <= x) (map snd l) -> Forall (fun x => 0 <= x) (map snd acc) ->
+  Forall (fun x => 0 <= x) (map snd (sum_by_ks l acc)).
+Proof.
+  induction l as [|[k a] r IH]; intros acc Hl Ha; cbn [sum_by_ks]; [exact Ha|].
+  cbn [map snd] in Hl. inversion Hl; subst. apply IH; [assumption|]. apply ins_ks_nonneg; assumption.
+Qed.
+
+Lemma in_le_tsum l x : Forall (fun y => 0 <= y) l -> In x l -> x <= tsum l.
+Proof.
+  induction l as [|y l IH]; intros Hall Hin; [destruct Hin|]. inversion Hall; subst. rewrite tsum_cons.
+  destruct Hin as [->|Hin]; [pose proof (tsum_nonneg l H2); lia|specialize (IH H2 Hin); lia].
+Qed.
+
+(* a view whose total is below 2^63 is returned as it is (SQLite's SUM does not overflow) *)
+Lemma sum_view_ok v : Forall (fun x => 0 <= x) (map snd v) -> tsum (map snd v) < two63 -> sum_view v = ROk v.
+Proof.
+  intros Hnn Hlt. unfold sum_view.
+  destruct (existsb (fun x => two63 <=? snd x) v) eqn:E; [|reflexivity].
+  exfalso. apply existsb_exists in E as [x [Hx Hb]]. apply Z.leb_le in Hb.
+  pose proof (in_le_tsum (map snd v) (snd x) Hnn (in_map snd v x Hx)). lia.
+Qed.
+
+(* TotalBalance is issued - redeemed, exactly, whenever the totals fit an int64 (the SUM views) and redeemed <= issued *)
 Theorem total_balance_exact w :
   Forall (fun x => 0 <= x) (map s_amount (d_sigs (w_db w))) ->
   Forall (fun x => 0 <= x) (map r_amount (d_spent (w_db w))) ->
-  issued_total (w_db w) < two64 -> redeemed_total (w_db w) <= issued_total (w_db w) ->
+  issued_total (w_db w) < two63 -> redeemed_total (w_db w) <= issued_total (w_db w) ->
   exists w', run total_balance no_fault w = (w', Done (Ok (issued_total (w_db w) - redeemed_total (w_db w)))) /\ same_but_calls w w'.
 Proof.
-  intros Hs Hr Hlt Hle. unfold total_balance. destruct w as [d l m a n]. cbn [w_db] in *. sx.
-  eexists. split; [|shelve]. apply f_equal2; [reflexivity|]. apply f_equal. apply f_equal.
+  intros Hs Hr Hlt Hle. unfold total_balance. destruct w as [d l m a n]. cbn [w_db] in *.
   pose proof (issued_view_total d) as Hi. pose proof (redeemed_view_total d) as Hre.
-  set (iv := map snd (sum_by_ks (map (fun s => (s_ks s, s_amount s)) (d_sigs d)) [])) in *.
-  set (rv := map snd (sum_by_ks (map (fun r => (r_ks r, r_amount r)) (d_spent d)) [])) in *.
+  set (vi := sum_by_ks (map (fun s => (s_ks s, s_amount s)) (d_sigs d)) []) in *.
+  set (vr := sum_by_ks (map (fun r => (r_ks r, r_amount r)) (d_spent d)) []) in *.
+  assert (Hiv : Forall (fun x => 0 <= x) (map snd vi)).
+  { apply sum_by_ks_nonneg; [rewrite map_map; cbn [snd]; exact Hs|constructor]. }
+  assert (Hrv : Forall (fun x => 0 <= x) (map snd vr)).
+  { apply sum_by_ks_nonneg; [rewrite map_map; cbn [snd]; exact Hr|constructor]. }
   assert (Hrn : 0 <= redeemed_total d) by (apply tsum_nonneg; exact Hr).
-  (* the views hold non-negative entries because the rows do; their wrapped sums equal their true sums *)
-  assert (Hins : forall k a acc, 0 <= a -> Forall (fun x => 0 <= x) (map snd acc) ->
-                                Forall (fun x => 0 <= x) (map snd (ins_ks k a acc))).
-  { clear. intros k a acc Ha0. induction acc as [|[k' a'] t IHt]; intros Ha; cbn [ins_ks map snd].
-    - constructor; [assumption|constructor].
-    - cbn [map snd] in Ha. inversion Ha; subst.
-      destruct (k =? k'); cbn [map snd]; constructor; try lia; auto. }
-  assert (Hnn : forall l acc, Forall (fun x => 0 <= x) (map snd l) -> Forall (fun x => 0 <= x) (map snd acc) ->
-                              Forall (fun x => 0 <= x) (map snd (sum_by_ks l acc))).
-  { clear - Hins. induction l as [|[k a] r IH]; intros acc Hl Ha; cbn [sum_by_ks]; [exact Ha|].
-    cbn [map snd] in Hl. inversion Hl; subst. apply IH; [assumption|]. apply Hins; assumption. }
-  assert (Hiv : Forall (fun x => 0 <= x) iv).
-  { apply Hnn; [rewrite map_map; cbn [snd]; exact Hs|constructor]. }
-  assert (Hrv : Forall (fun x => 0 <= x) rv).
-  { apply Hnn; [rewrite map_map; cbn [snd]; exact Hr|constructor]. }
-  rewrite (sum64_small iv Hiv) by lia. rewrite (sum64_small rv Hrv) by lia.
-  rewrite Hi, Hre. unfold sub64. apply Z.mod_small. lia.
+  assert (Ei : sum_view vi = ROk vi) by (apply sum_view_ok; [exact Hiv|lia]).
+  assert (Er : sum_view vr = ROk vr) by (apply sum_view_ok; [exact Hrv|lia]).
+  sx. fold vi. rewrite Ei. sx. fold vr. rewrite Er. sx.
+  eexists. split; [|shelve]. apply f_equal2; [reflexivity|]. apply f_equal. apply f_equal.
+  rewrite (sum64_small (map snd vi) Hiv) by (unfold two63, two64 in *; lia).
+  rewrite (sum64_small (map snd vr) Hrv) by (unfold two63, two64 in *; lia).
+  rewrite Hi, Hre. unfold sub64. apply Z.mod_small. unfold two63, two64 in *. lia.
   Unshelve. repeat split.
+Qed.
+
+(* beyond that the mint does not report a wrong balance, it reports none: one keyset's total of 2^63 or more makes the view fail
+   (before the fix of the unchecked rows.Err() the views came back EMPTY and the balance was 0) *)
+Theorem total_balance_overflow_fails w :
+  (exists x, In x (sum_by_ks (map (fun s => (s_ks s, s_amount s)) (d_sigs (w_db w))) []) /\ two63 <= snd x) ->
+  exists w', run total_balance no_fault w = (w', Done (Err EDb)) /\ same_but_calls w w'.
+Proof.
+  intros [x [Hx Hb]]. unfold total_balance. destruct w as [d l m a n]. cbn [w_db] in *.
+  assert (E : sum_view (sum_by_ks (map (fun s => (s_ks s, s_amount s)) (d_sigs d)) []) = RErr).
+  { unfold sum_view. assert (Hex : existsb (fun y => two63 <=? snd y) (sum_by_ks (map (fun s => (s_ks s, s_amount s)) (d_sigs d)) []) = true).
+    { apply existsb_exists. exists x. split; [exact Hx|apply Z.leb_le; exact Hb]. }
+    rewrite Hex. reflexivity. }
+  sx. rewrite E. sx. eexists. split; [reflexivity|repeat split].
 Qed.
 
 (* limits: a mint-quote request above the configured maximum is refused before anything happens *)
